@@ -430,4 +430,71 @@ def run(ctx):
             for k_ in ("init", "appended", "exemption"):
                 if shapes["C"][k_] != shapes["Python"][k_]:
                     ob5.refute("emitters-differ:%s" % k_, "C and Python emitters differ in %s: %s vs %s" % (k_, shapes["C"][k_], shapes["Python"][k_]), None)
+    lpddr5_frange(ctx, m)
     ctx.assume("reference tables in /verif/refdata/mode_registers.json were transcribed by hand from the JEDEC documents cited there")
+
+
+def lpddr5_frange(ctx, m):
+    ob6 = ctx.ob("C17.6", "LPDDR5: the frequency-range row whose MR / nWR codes are programmed into MR1 / MR2 is selected by BOTH latencies the PHY operates with "
+                          "(WL from phy_settings.cwl and RL from phy_settings.cl), and that pair identifies exactly one row of the JEDEC table for each WCK:CK "
+                          "ratio - a lookup on one latency alone returns the first, slower row that shares it", 3)
+    fn = m.functions.get("get_lpddr5_phy_init_sequence")
+    bp = ctx.repo.module("litedram.phy.lpddr5.basephy")
+    if not ob6.need(fn is not None and bp is not None, "LPDDR5 init generator / basephy vanished"):
+        return
+    # which local comes from which PHY setting
+    origin = {}
+    for n in ast.walk(fn):
+        if isinstance(n, ast.Assign) and len(n.targets) == 1 and isinstance(n.targets[0], ast.Name) and isinstance(n.value, ast.Attribute) \
+                and isinstance(n.value.value, ast.Name) and n.value.value.id == "phy_settings":
+            origin[n.targets[0].id] = n.value.attr
+    # the row selection: a loop over FREQUENCY_RANGES[...] with a comparison of row fields against those locals
+    fields = {}
+    sets = {}
+    for loop in [n for n in ast.walk(fn) if isinstance(n, ast.For)]:
+        if "FREQUENCY_RANGES" not in ast.unparse(loop.iter):
+            continue
+        for c in ast.walk(loop):
+            if isinstance(c, ast.Compare) and len(c.ops) == 1 and isinstance(c.ops[0], ast.Eq):
+                for a, b in ((c.left, c.comparators[0]), (c.comparators[0], c.left)):
+                    if isinstance(a, ast.Attribute) and isinstance(b, (ast.Name, ast.Attribute)):
+                        src = origin.get(b.id) if isinstance(b, ast.Name) else (b.attr if isinstance(b.value, ast.Name) and b.value.id == "phy_settings" else None)
+                        if src:
+                            fields[a.attr] = src
+            if isinstance(c, ast.Call) and isinstance(c.func, ast.Attribute) and c.func.attr == "for_set":
+                for kw in c.keywords:
+                    if isinstance(kw.value, ast.Constant):
+                        sets[kw.arg] = kw.value.value
+    ob6.instance("row selection compares", fields)
+    if not ob6.need(bool(fields), "row selection loop over FREQUENCY_RANGES not found in get_lpddr5_phy_init_sequence"):
+        return
+    # the table
+    cls = bp.classes.get("FreqRange")
+    order = [b.target.id for b in cls.body if isinstance(b, ast.AnnAssign) and isinstance(b.target, ast.Name)] if cls is not None else []
+    table = None
+    for n in bp.tree.body:
+        if isinstance(n, ast.Assign) and any(isinstance(t, ast.Name) and t.id == "FREQUENCY_RANGES" for t in n.targets) and isinstance(n.value, ast.Dict):
+            table = n.value
+    if not ob6.need(table is not None and bool(order), "FREQUENCY_RANGES / FreqRange not found in basephy"):
+        return
+    wl_i = {"A": 0, "B": 1}.get(sets.get("wl_set", "A"), 0)
+    rl_i = sets.get("rl_set", 0) if isinstance(sets.get("rl_set", 0), int) else 0
+    for k, v in zip(table.keys, table.values):
+        ratio = ast.literal_eval(k)
+        rows = []
+        for call in v.elts:
+            try:
+                vals = [ast.literal_eval(a) for a in call.args]
+            except Exception:
+                ob6.unknown("ratio %s: a table row is not a literal" % ratio)
+                return
+            rows.append(dict(zip(order, vals)))
+        seen = {}
+        for i, r_ in enumerate(rows):
+            proj = tuple((f_, (r_[f_][wl_i if f_ == "wl" else rl_i] if isinstance(r_.get(f_), tuple) else r_.get(f_))) for f_ in sorted(fields))
+            if proj in seen and (rows[seen[proj]]["mr"], rows[seen[proj]]["n_wr_op"]) != (r_["mr"], r_["n_wr_op"]):
+                ob6.refute("frange-ambiguous:%s" % ratio, "WCK:CK %s:1: rows %d and %d of FREQUENCY_RANGES agree on %s but carry different MR / nWR codes (%s vs %s): the first "
+                           "one wins, so the faster range is initialised with the slower range's read latency and write recovery" %
+                           (ratio, seen[proj], i, dict(proj), (rows[seen[proj]]["mr"], rows[seen[proj]]["n_wr_op"]), (r_["mr"], r_["n_wr_op"])), (m.rel(), fn.lineno))
+            seen.setdefault(proj, i)
+        ob6.instance("WCK:CK %s:1 table" % ratio, {"rows": len(rows), "distinct keys": len(seen)})
